@@ -74,6 +74,73 @@ CondHolds(tchars, cond, env) ==
          [] cond.op = "~~" -> PatMatch(tchars, cond.pat, s)
          [] cond.op = "!~" -> ~PatMatch(tchars, cond.pat, s)
 
+(***************************************************************************)
+(* Precedence annotations on an ordinary nonterminal whose alternatives    *)
+(* use sugar (property C12 for recursive occurrences that sit inside macro *)
+(* arguments, repetitions and groups).  Such an item carries               *)
+(*   prec = TRUE, lev, assoc : per alternative, as written (-1 / "" when   *)
+(*   absent)                                                               *)
+(* and means its tiers (Prec.tla's rule), where "the recursive             *)
+(* occurrences" of an alternative are all the places its name is written   *)
+(* in it, however deeply nested, counted left to right.                    *)
+(***************************************************************************)
+IsPrecItem(it) == "prec" \in DOMAIN it /\ it.prec
+
+RECURSIVE OccE(_, _), OccSeq(_, _, _)
+OccE(e, nt) == CASE e.k = "nt"    -> IF e.n = nt THEN 1 ELSE 0
+                 [] e.k = "macro" -> OccSeq(e.args, nt, 1)
+                 [] e.k = "rep"   -> OccE(e.s, nt)
+                 [] e.k = "group" -> OccSeq(e.syms, nt, 1)
+                 [] OTHER         -> 0
+OccSeq(es, nt, i) == IF i > Len(es) THEN 0 ELSE OccE(es[i], nt) + OccSeq(es, nt, i + 1)
+OccBefore(es, nt, i) == OccSeq(SubSeq(es, 1, i - 1), nt, 1)
+
+(* rename the occurrences of nt in e; k0 of them come before e; f[k] names the k-th *)
+RECURSIVE SubE(_, _, _, _)
+SubE(e, nt, k0, f) ==
+  CASE e.k = "nt"    -> IF e.n = nt THEN [e EXCEPT !.n = f[k0 + 1]] ELSE e
+    [] e.k = "macro" -> [e EXCEPT !.args = [i \in DOMAIN e.args |-> SubE(e.args[i], nt, k0 + OccBefore(e.args, nt, i), f)]]
+    [] e.k = "rep"   -> [e EXCEPT !.s = SubE(e.s, nt, k0, f)]
+    [] e.k = "group" -> [e EXCEPT !.syms = [i \in DOMAIN e.syms |-> SubE(e.syms[i], nt, k0 + OccBefore(e.syms, nt, i), f)]]
+    [] OTHER         -> e
+
+RECURSIVE ItEffLevel(_, _), ItEffAssoc(_, _)
+ItEffLevel(it, j) == IF it.lev[j] >= 0 THEN it.lev[j] ELSE ItEffLevel(it, j - 1)
+ItEffAssoc(it, j) == IF it.assoc[j] # "" THEN it.assoc[j]
+                     ELSE IF it.lev[j] >= 0 THEN "all" ELSE ItEffAssoc(it, j - 1)
+ItLevels(it) == {ItEffLevel(it, j) : j \in DOMAIN it.alts}
+ItRank(it, l) == Cardinality({x \in ItLevels(it) : x <= l})
+ItTier(it, i) == IF i = Cardinality(ItLevels(it)) THEN it.name ELSE it.name \o "@" \o ToString(i)
+
+TierAlt(it, j) ==
+  LET a == it.alts[j]
+      i == ItRank(it, ItEffLevel(it, j))
+      as == ItEffAssoc(it, j)
+      n == OccSeq(a.rhs, it.name, 1)
+      cur == ItTier(it, i)
+      prev == IF i > 1 THEN ItTier(it, i - 1) ELSE cur
+      f == [k \in 1..n |-> IF as = "all" THEN cur
+                           ELSE IF as = "none" THEN prev
+                           ELSE IF as = "left" THEN (IF k = 1 THEN cur ELSE prev)
+                           ELSE (IF k = n THEN cur ELSE prev)]
+  IN [a EXCEPT !.rhs = [m \in DOMAIN a.rhs |-> SubE(a.rhs[m], it.name, OccBefore(a.rhs, it.name, m), f)]]
+
+TierItems(it) ==
+  LET n == Cardinality(ItLevels(it))
+      pass(i) == [cond |-> [on |-> FALSE], rhs |-> << [k |-> "nt", n |-> ItTier(it, i - 1), sel |-> FALSE] >>,
+                  P |-> [tag |-> 0, form |-> "none", esym |-> 0, exact |-> FALSE, unit |-> FALSE,
+                         syms |-> << [k |-> "sym", i |-> 1, sel |-> FALSE] >>,
+                         fail |-> [on |-> FALSE, s |-> 1, m |-> 1, r |-> 0]]]
+      own(i) == LET J == SelectSeq([j \in DOMAIN it.alts |-> j], LAMBDA j : ItRank(it, ItEffLevel(it, j)) = i)
+                IN [x \in DOMAIN J |-> TierAlt(it, J[x])]
+  IN [i \in 1..n |-> [name |-> ItTier(it, i), params |-> <<>>, kind |-> it.kind,
+                      alts |-> own(i) \o (IF i > 1 THEN <<pass(i)>> ELSE <<>>)]]
+
+RECURSIVE TierAll(_, _)
+TierAll(items, i) == IF i > Len(items) THEN <<>>
+                     ELSE (IF IsPrecItem(items[i]) THEN TierItems(items[i]) ELSE <<items[i]>>) \o TierAll(items, i + 1)
+Tiered(sugar) == [sugar EXCEPT !.items = TierAll(sugar.items, 1)]
+
 ItemOf(sugar, n) == sugar.items[CHOOSE i \in DOMAIN sugar.items : sugar.items[i].name = n]
 
 NoFail == [on |-> FALSE, s |-> 1, m |-> 1, r |-> 0]
@@ -128,8 +195,9 @@ BaseAlts(sugar) ==
                              kind |-> plain[i].kind]]
   IN F[Len(plain)]
 
-Expansion(raw) == LET b == BaseAlts(raw.sugar)
-                  IN Collect(raw.sugar, RhsOf(b, 1), {}, b, 200)
+Expansion(raw) == LET sg == Tiered(raw.sugar)
+                      b == BaseAlts(sg)
+                  IN Collect(sg, RhsOf(b, 1), {}, b, 200)
 
 RECURSIVE Dedup(_, _)
 Dedup(s, seen) == IF s = <<>> THEN <<>>
